@@ -359,7 +359,7 @@ func init() {
 				}
 				return norm(impl) == norm(model)
 			},
-			Shrink: c14Shrink,
+			Shrink:     c14Shrink,
 			Nontrivial: func(t c14Case, _ Sexp) bool { return t.Q.hasFault() },
 			PropertyFails: func(t c14Case, impl, model Sexp) bool {
 				if len(impl.List) != 3 {
